@@ -12,6 +12,8 @@ ALPHABETS = {
     # proofs: axioms, rules, instantiation, memory, publish
     'proofs': ('evar', 'metavar', 'implies', 'exists', 'prop1', 'prop2', 'prop3', 'quantifier', 'modus_ponens', 'generalization', 'instantiate', 'save', 'load', 'pop', 'publish'),
     'small': ('evar', 'metavar', 'implies', 'prop1', 'instantiate', 'modus_ponens', 'save', 'load', 'publish'),
+    # memory addressing under the labels the toolkit's own callers use (str(term)): two different terms that print alike
+    'lookalike': ('lookalike', 'metavar', 'implies', 'save', 'load', 'pop'),
     'all': (
         'evar', 'svar', 'symbol', 'metavar', 'cmetavar', 'implies', 'app', 'exists', 'mu', 'esubst', 'ssubst', 'prop1', 'prop2', 'prop3', 'quantifier',
         'modus_ponens', 'generalization', 'instantiate', 'instantiate_pattern', 'save', 'load', 'pop', 'publish', 'next_phase',
@@ -79,6 +81,8 @@ def admissible(it: Any, alphabet: tuple) -> list[str]:
         elif a == 'load':
             if it.memory:
                 out.append(a)
+        elif a == 'lookalike':
+            out.append(a)
         elif a == 'publish':
             if not st:
                 continue
@@ -179,11 +183,40 @@ def step(ctx: Any, it: Any, call: str, symbols: tuple = ('s0', 's1')) -> dict:
         else:
             it.instantiate_pattern(st[-1], delta)
     elif call == 'save':
-        it.save(str(len(it.memory)), st[-1])
+        it.save(repr(st[-1]), st[-1])
     elif call == 'load':
         j = ctx.choose(len(it.memory), 'slot')
         d['slot'] = j
-        it.load(str(j), it.memory[j])
+        # the label is the rendering of the term, as in MemoizingInterpreter.pattern / ProofExp.load_axiom / translate.py
+        it.load(str(it.memory[j]), it.memory[j])
+    elif call == 'lookalike':
+        # macro step: two different terms with the same rendering are built and saved, then both are loaded
+        fam = ctx.choose(4, 'family')
+        if fam == 0:
+            k = ctx.choose(2, 'mv')
+            cfg = MV_CFGS[ctx.choose(5, 'cfg')]  # one non-empty list (the two-list configuration is the known ill-formed one)
+            ls = (
+                tuple(P.EVar(ctx.int('ce')) for _ in range(cfg[0])),
+                tuple(P.SVar(ctx.int('cs')) for _ in range(cfg[1])),
+                tuple(P.SVar(ctx.int('cp')) for _ in range(cfg[2])),
+                tuple(P.SVar(ctx.int('cn')) for _ in range(cfg[3])),
+                tuple(P.EVar(ctx.int('ch')) for _ in range(cfg[4])),
+            )
+            a, b = P.MetaVar(k), P.MetaVar(k, *ls)
+        elif fam == 1:
+            a, b = P.Symbol('x1'), P.EVar(1)
+        elif fam == 2:
+            a, b = P.Symbol('phi0'), P.MetaVar(0)
+        else:
+            a, b = P.Implies(P.MetaVar(0), P.EVar(1)), P.Implies(P.MetaVar(0, (P.EVar(2),)), P.Symbol('x1'))
+        if ctx.choose(2, 'built first') == 1:
+            a, b = b, a
+        d['terms'] = [repr(a), repr(b)]
+        it.save(repr(a), it.pattern(a))
+        it.save(repr(b), it.pattern(b))
+        first, second = (a, b) if ctx.choose(2, 'loaded first') == 0 else (b, a)
+        it.load(str(first), first)
+        it.load(str(second), second)
     elif call == 'pop':
         it.pop(st[-1])
     elif call == 'publish':
